@@ -129,6 +129,23 @@ fn gen_c02(r: &mut Prng, _i: u64, _t: Tier) -> Plan {
     }
     p
 }
+/// readers that take every frame in several small pieces and pause in between, writers that
+/// send bursts longer than any window
+const PIECEMEAL: Prof = Prof { max_writes: 40, max_size: 48, p_empty: 20, p_vectored: 250, p_flush: 30, p_yield: 350, p_shutdown: 1000, p_write_after_shutdown: 0, p_drop_mid: 0, p_read_eof: 1000, p_fill: 500, p_reader_absent: 0, hold: 0, max_buf: 3 };
+fn gen_c02_piecemeal(r: &mut Prng, _i: u64, _t: Tier) -> Plan {
+    let mut p = base_plan(r);
+    for _ in 0..(1 + r.below(3)) {
+        let mut s = gen_stream(r, &PIECEMEAL);
+        for sd in &mut s.sides {
+            // a reader that dawdles before it starts
+            if r.chance(1, 2) {
+                sd.r.insert(0, ROp::Yield(5 + r.below(40)));
+            }
+        }
+        p.streams.push(s);
+    }
+    p
+}
 pub fn c02() -> Check {
     Check {
         property: "C02",
@@ -145,7 +162,7 @@ pub fn c02() -> Check {
             rule: "1-4 streams opened from either side, per direction a writer (plain/vectored writes incl. empty slices, bursts beyond the window, flush, shutdown) and a reader (read with buffers 1..64 or fill_buf+partial consume); (rwnd, threshold) drawn independently per side from {1,2,3,4,8,16}^2, link window from {1,2,8,inf}, optional latency, schedule weights per run. Non-trivial: at least 4 Push and 2 Acknowledge frames crossed the wire.",
             exhaustive_thorough: false,
             stride: 1,
-        })],
+        }), fam("piecemeal-readers", 100_000, 1_000_000, gen_c02_piecemeal, OracleCfg::default(), None, nt_data, "1-3 streams whose readers take every frame in pieces of 1-3 bytes (read or fill_buf + partial consume), pause between pieces and often start late, while writers send bursts of up to 40 writes, longer than any window, and shut down; the reader reads to end-of-stream. Same oracles as `streams`.")],
         required_probes: vec!["writer-parked-on-credit", "window-exactly-exhausted", "multiple-streams", "link-backpressure"],
         assumptions: vec!["the WebSocket below the multiplexor is reliable and ordered per direction (PROTOCOL.md); the in-memory link implements tokio-tungstenite's observable contract", "one poll of a task is atomic (single-threaded scheduling; finer interleavings are C12's)"],
         real: vec!["penguin_mux::Multiplexor", "penguin_mux::TaskData::into_task (receive/send/ping/dropped-handle loops, wind_down)", "penguin_mux::MuxStream (AsyncRead, AsyncBufRead, AsyncWrite incl. vectored)", "penguin_mux::frame codec", "cow-bytes", "tokio::sync channels", "tokio paused timer wheel"],
@@ -405,7 +422,43 @@ pub fn c05() -> Check {
     let mut c = c05_base();
     c.families.push(fam("local-drop", 200_000, 2_000_000, gen_c05_drop, OracleCfg::default(), Some(x_c05), nt_c05, "the local Multiplexor handle is dropped at a seeded scheduling round on a healthy transport while a stream object survives and reads to end-of-stream, the peer still writing and finishing: end-of-stream must come only after every byte the peer had put on the wire before it answered the Close."));
     c.required_probes.push("read-to-eof-after-own-drop");
+    c.families.push(Box::new(C05RawFamily));
+    c.required_probes.push("empty-push-from-third-party-peer");
     c
+}
+pub struct C05RawFamily;
+impl Family for C05RawFamily {
+    fn name(&self) -> &'static str {
+        "third-party-peer"
+    }
+    fn runs(&self, tier: Tier) -> u64 {
+        if tier == Tier::Quick { 60_000 } else { 1_000_000 }
+    }
+    fn generate(&self, batch_seed: u64, index: u64, _tier: Tier) -> (Value, u64) {
+        let seed = simcore::prng::mix(batch_seed, "third-party-peer", index);
+        let mut r = Prng::new(seed);
+        let r = &mut r;
+        let rwnd = *r.pick(&[2u32, 4, 16]);
+        let n = 1 + r.below(rwnd as usize);
+        let plan = crate::solo::C05RawPlan {
+            ep: EpCfg { rwnd, threshold: 1 + r.below(rwnd as usize) as u32, dgram_buf: 8, stream_buf: 4, bind_buf: 0, retries: 3, ids: vec![] },
+            link: LinkCfg { window: *r.pick(&[1usize, 8, 1 << 20]), latency_ms: 0, drop_after_close: false, ws_client: 0, bp_flush: r.chance(1, 2) },
+            weights: gen_weights(r),
+            pushes: (0..n).map(|_| if r.chance(1, 3) { 0 } else { 1 + r.below(12) }).collect(),
+            gaps: r.below(4),
+            end: r.below(3) as u8,
+            buf: *r.pick(&[1usize, 3, 64]),
+            fill: r.chance(1, 2),
+        };
+        (serde_json::to_value(plan).expect("plan"), seed)
+    }
+    fn exec(&self, plan: &Value, sched: &Sched, record: bool) -> Outcome {
+        let Ok(plan) = serde_json::from_value::<crate::solo::C05RawPlan>(plan.clone()) else { return Outcome::default() };
+        crate::solo::run_c05_raw(&plan, sched, record)
+    }
+    fn rule(&self) -> &'static str {
+        "one real endpoint whose application accepts a stream and reads it to end-of-stream (read or fill_buf/consume, buffers 1..64), against a raw peer that is conforming but not this implementation: it opens the stream and sends 1..rwnd Push frames of which about a third carry a zero-length payload, then Finish, Reset or nothing. End-of-stream may be read only after the Finish/Reset and after every pushed byte; with neither, never. Non-trivial: a zero-length Push was among them."
+    }
 }
 fn c05_base() -> Check {
     duo_check(
@@ -460,7 +513,7 @@ fn gen_c06(r: &mut Prng, _i: u64, t: Tier) -> Plan {
     for k in 0..cycles {
         let a = r.below(5);
         let b = r.below(5);
-        p.streams.push(StreamPlan { opener: 0, port: k as u16, pad: r.below(4), delay: r.below(3), after: if k > 0 { Some(k - 1) } else { None }, raw_host: None, sides: [gen_close_side(r, a), gen_close_side(r, b)] });
+        p.streams.push(StreamPlan { opener: 0, port: k as u16, pad: r.below(4), delay: r.below(3), after: if k > 0 { Some(k - 1) } else { None }, after_abort: None, raw_host: None, sides: [gen_close_side(r, a), gen_close_side(r, b)] });
     }
     for _ in 0..r.below(3) {
         let mut s = gen_stream(r, &CLEAN);
@@ -477,31 +530,71 @@ fn gen_c06_early_reuse(r: &mut Prng, _i: u64, _t: Tier) -> Plan {
     let mut p = base_plan(r);
     p.eps[0].ids = vec![CYCLE_ID; 12];
     p.eps[0].retries = 12;
+    // the new stream may come from either endpoint (an endpoint proposes the id only once its own
+    // slot is free, otherwise its generator moves on: up to 12 scripted retries)
+    let new_opener = r.below(2);
+    if new_opener == 1 {
+        p.eps[1].ids = vec![CYCLE_ID; 12];
+        p.eps[1].retries = 12;
+    }
     let x = r.below(2); // which side of the old stream aborts first (0 = the opener)
     // The old stream carries no data and the lingering side lets go only after it has seen the
     // abort (EOF): then no frame of the old incarnation is in flight when the id is re-used.
     // (Frames of an old incarnation that are still in flight when its id is re-used are
     // indistinguishable from frames of the new one on the wire -- a limit of the protocol, not of
     // this implementation, and not what this family judges.)
-    let first = SidePlan { w: vec![WOp::Drop], r: vec![], hold: false };
-    let linger = 1 + r.below(60);
-    let last = SidePlan { w: vec![], r: vec![ROp::ReadEof { buf: 8 }, ROp::Yield(linger), ROp::Drop], hold: false };
+    // Variant with data: the aborting side first writes a few frames (fewer than the window, so it
+    // never waits for credit) which the lingering application reads only after the id has been
+    // re-used -- reading must not produce frames (Acknowledge) for a flow this endpoint knows is
+    // closed, because the peer would credit them to the new stream.
+    let lingering_ep = if x == 0 { 1 } else { 0 };
+    let k = if r.chance(1, 2) { 0 } else { r.below(p.eps[lingering_ep].rwnd.min(4) as usize + 1) };
+    let mut w: Vec<WOp> = (0..k).map(|_| WOp::Write(1 + r.below(9))).collect();
+    w.push(WOp::Drop);
+    let first = SidePlan { w, r: vec![], hold: false };
+    let linger = 1 + r.below(120);
+    let rd = if k > 0 { vec![ROp::AwaitOpened(1), ROp::Yield(r.below(20)), ROp::ReadEof { buf: 1 + r.below(8) }] } else { vec![ROp::ReadEof { buf: 8 }] };
+    let last = SidePlan { w: vec![WOp::AwaitEof, WOp::Yield(linger), WOp::Drop], r: rd, hold: false };
     let sides = if x == 0 { [first, last] } else { [last, first] };
-    p.streams.push(StreamPlan { opener: 0, port: 1, pad: 0, delay: 0, after: None, raw_host: None, sides });
+    p.streams.push(StreamPlan { opener: 0, port: 1, pad: 0, delay: 0, after: None, after_abort: None, raw_host: None, sides });
     // the new stream under the same id, opened while the old object still exists somewhere
     let mut s = gen_stream(r, &CLEAN);
-    s.opener = 0;
-    s.delay = 1 + r.below(30);
+    s.opener = new_opener;
+    s.delay = r.below(12);
     s.after = None;
+    s.after_abort = Some(0);
     p.streams.push(s);
-    if r.chance(1, 2) {
+    if r.chance(1, 2) && new_opener == 0 {
         let mut b = gen_stream(r, &CLEAN);
         b.opener = 1;
         p.streams.push(b);
     }
     p
 }
+/// The family's space: the old stream is aborted by one side, its other side lets go only after it
+/// has seen the abort, and reads buffered data only after the id was re-used. The minimiser may
+/// shrink everything else; a candidate outside this space (e.g. both sides aborting at once, whose
+/// crossing Reset frames are ambiguous on the wire once the id is re-used) is not judged.
+fn c06_early_in_space(p: &Plan) -> bool {
+    if p.streams.len() < 2 || p.streams[1].after_abort != Some(0) || p.streams[0].after.is_some() || p.streams[1].after.is_some() {
+        return false;
+    }
+    let s0 = &p.streams[0];
+    let is_first = |sd: &SidePlan| sd.r.is_empty() && !sd.hold && sd.w.last() == Some(&WOp::Drop) && sd.w[..sd.w.len() - 1].iter().all(|o| matches!(o, WOp::Write(n) if *n > 0));
+    let is_last = |sd: &SidePlan, data: bool| {
+        !sd.hold
+            && matches!(sd.w.as_slice(), [WOp::AwaitEof, WOp::Yield(_), WOp::Drop])
+            && matches!(sd.r.last(), Some(ROp::ReadEof { .. }))
+            && (!data || matches!(sd.r.first(), Some(ROp::AwaitOpened(1))))
+            && sd.r.iter().all(|o| matches!(o, ROp::ReadEof { .. } | ROp::AwaitOpened(1) | ROp::Yield(_)))
+    };
+    (0..2).any(|a| is_first(&s0.sides[a]) && is_last(&s0.sides[1 - a], s0.sides[a].w.len() > 1))
+}
 fn x_c06_early(r: &DuoRun, _wm: &WireModel, ei: &EndInfo, o: &mut Outcome) {
+    if !c06_early_in_space(&r.plan) {
+        o.violations.clear();
+        return;
+    }
     if ei.any_fault {
         return;
     }
@@ -514,9 +607,12 @@ fn x_c06_early(r: &DuoRun, _wm: &WireModel, ei: &EndInfo, o: &mut Outcome) {
     let led = r.led.borrow();
     let l = r.link.lock().unwrap();
     // did the second stream really get the id of the first while an old object was alive?
-    let ids: Vec<(u64, u32)> = l.evs.iter().filter(|e| e.stage == Stage::Consumed && e.from == 0).filter_map(|e| match &*e.w { Wire::Frame(RFrame::Connect { id, .. }) => Some((e.seq, *id)), _ => None }).collect();
+    let ids: Vec<(u64, u32)> = l.evs.iter().filter(|e| e.stage == Stage::Consumed).filter_map(|e| match &*e.w { Wire::Frame(RFrame::Connect { id, .. }) => Some((e.seq, *id)), _ => None }).collect();
     let (Some(a), Some(b)) = (led.streams.first(), led.streams.get(1)) else { return };
     let old_dropped_last = a.sides.iter().filter_map(|sd| sd.dropped).max();
+    if std::env::var_os("DEBUG_C06").is_some() {
+        eprintln!("DBG opener1={} ids={:x?} old_dropped={:?} b_open={:?} b_ret={:?} b_got={:?}", r.plan.streams[1].opener, ids, a.sides.iter().map(|sd| sd.dropped).collect::<Vec<_>>(), b.open_inv, b.open_ret.as_ref().map(|x| x.0), b.sides[1].got_stream);
+    }
     if let (Some(d), Some(c2)) = (old_dropped_last, ids.iter().filter(|c| c.1 == CYCLE_ID).nth(1)) {
         if c2.0 < d && b.sides[1].got_stream.is_some() {
             o.probe("id-reused-while-old-object-alive", 1);
@@ -780,7 +876,7 @@ fn gen_c07(r: &mut Prng, _i: u64, _t: Tier) -> Plan {
             }
             // behavioural credit cross-check: against a non-reading peer exactly `peer rwnd` writes complete
             let w: Vec<WOp> = (0..20).map(|_| WOp::Write(1)).collect();
-            p.streams.push(StreamPlan { opener: me, port: r.next() as u16, pad: 0, delay: r.below(5), after: None, raw_host: Some(host), sides: [SidePlan { w: w.clone(), r: vec![], hold: true }, SidePlan { w, r: vec![], hold: true }] });
+            p.streams.push(StreamPlan { opener: me, port: r.next() as u16, pad: 0, delay: r.below(5), after: None, after_abort: None, raw_host: Some(host), sides: [SidePlan { w: w.clone(), r: vec![], hold: true }, SidePlan { w, r: vec![], hold: true }] });
         }
     }
     p
@@ -934,6 +1030,8 @@ fn gen_c08_workload(r: &mut Prng) -> Plan {
     let mut p = base_plan(r);
     for e in &mut p.eps {
         e.stream_buf = *r.pick(&[1usize, 2, 16]);
+        // with one attempt, a request pending at the end is on its last attempt
+        e.retries = *r.pick(&[1usize, 3]);
     }
     for _ in 0..(1 + r.below(3)) {
         p.streams.push(gen_stream(r, &CHAOS));
@@ -1447,7 +1545,15 @@ fn gen_request(r: &mut Prng) -> Case {
         Case::V5Request { ver: if r.chance(1, 12) { *r.pick(&[0u8, 4, 6, 255]) } else { 5 }, cmd: if r.chance(1, 5) { r.next() as u8 } else { 1 + r.below(3) as u8 }, rsv: if r.chance(1, 6) { r.next() as u8 } else { 0 }, atyp_override: if r.chance(1, 12) { Some(*r.pick(&[0u8, 2, 5, 9, 255])) } else { None }, addr, port: r.next() as u16 }
     } else {
         let is4a = r.chance(1, 2);
-        let ip = if is4a { [0, 0, 0, 1 + r.below(255) as u8] } else { [1 + r.below(255) as u8, r.next() as u8, r.next() as u8, r.next() as u8] };
+        // plain SOCKS4 addresses include the ones next to the SOCKS4a marker 0.0.0.x (x != 0):
+        // 0.0.0.0 and 0.x.y.z are ordinary IPv4 addresses
+        let ip = if is4a {
+            [0, 0, 0, 1 + r.below(255) as u8]
+        } else if r.chance(1, 4) {
+            *r.pick(&[[0u8, 0, 0, 0], [0, 1, 2, 3], [0, 0, 1, 0], [0, 255, 255, 255], [0, 0, 1, 1]])
+        } else {
+            [1 + r.below(255) as u8, r.next() as u8, r.next() as u8, r.next() as u8]
+        };
         let ulen = *r.pick(&[0usize, 1, 8, 300]);
         let dlen = *r.pick(&[0usize, 1, 11, 255, 400]);
         Case::V4Request { cmd: if r.chance(1, 5) { r.next() as u8 } else { 1 + r.below(2) as u8 }, port: r.next() as u16, ip, user: r.bytes(ulen), user_nul: !r.chance(1, 8), domain: if is4a { Some((0..dlen).map(|_| b'a' + r.below(26) as u8).collect()) } else { None }, domain_nul: !r.chance(1, 6) }
